@@ -17,6 +17,16 @@ ignored evaluation grid (D12).
 namespace HcipyVerif.Interp
 open HcipyVerif.Binning
 
+/-- where an evaluation point lies with respect to the convex hull of the samples (see `hullLoc`) -/
+inductive Loc where
+  | outside | boundary | inside
+  deriving DecidableEq, Repr
+
+def Loc.name : Loc → String
+  | .outside => "outside"
+  | .boundary => "boundary"
+  | .inside => "inside"
+
 section
 variable {K : Type} [Add K] [Zero K] [Mul K] [Sub K] [Div K] [NatCast K] [LE K] [DecidableLE K]
 
@@ -155,6 +165,75 @@ def nearestUnstructuredOld (_pts : List (List K)) (vals : List K) (k : Nat) (_p 
 
 /-- weighted combination `Σ λ_i v_i` of values -/
 def combine (lam vals : List K) : K := dot lam vals
+
+/-! ### barycentric coordinates on a `d`-simplex, any `d` (executed by the driver ops `lin-simplex`, `simplex-loc`)
+
+`LinearNDInterpolator` evaluates `Σ λ_i f(v_i)` with the barycentric coordinates `λ` of the point in the Delaunay
+simplex that contains it.  `baryN` computes them exactly: Cramer's rule on the edge matrix `(v_i - v_0)`, the
+determinants by Laplace expansion (any size), and then *checks* `Σ λ = 1` and `Σ λ_i v_i = p` exactly, so that whatever
+it returns are barycentric coordinates (`Properties/C18.lean: baryN_sound`); for `d = 1, 2, 3` it is proved to succeed
+on every non-degenerate simplex (`baryN_defined_d1/2/3`). -/
+
+/-- `Σ_i λ_i v_i` for points `v_i` with `n` coordinates -/
+def wsum (n : Nat) : List K → List (List K) → List K
+  | l :: lam, v :: verts => vadd (v.map (l * ·)) (wsum n lam verts)
+  | _, _ => vzero n
+
+/-- Laplace expansion along the first row: `Σ_j sgn·(-1)^j · a_j · minor j` -/
+def laplace (minor : Nat → K) : Nat → K → List K → K
+  | _, _, [] => 0
+  | j, sgn, a :: row => sgn * a * minor j + laplace minor (j + 1) (0 - sgn) row
+
+/-- determinant of an `n × n` matrix given as its list of rows -/
+def detN : Nat → List (List K) → K
+  | n + 1, row :: rest => laplace (fun j => detN n (rest.map (·.eraseIdx j))) 0 ((1 : Nat) : K) row
+  | _, _ => ((1 : Nat) : K)
+
+/-- componentwise difference of two points -/
+def vsub (a b : List K) : List K := List.zipWith (· - ·) a b
+
+/-- the edge matrix of a simplex: rows `v_i - v_0`, `i ≥ 1` -/
+def edges : List (List K) → List (List K)
+  | [] => []
+  | v0 :: rest => rest.map (vsub · v0)
+
+/-- the determinant whose vanishing means "degenerate simplex" (`d! ·` signed volume) -/
+def simplexDet (verts : List (List K)) : K := detN (edges verts).length (edges verts)
+
+/-- Cramer's rule: `λ_1 … λ_d` from the edge matrix `E` and the right-hand side `r = p - v_0`, then `λ_0 = 1 - Σ` -/
+def cramer (E : List (List K)) (r : List K) : List K :=
+  let D := detN E.length E
+  let tl := (List.range E.length).map fun i => detN E.length (E.set i r) / D
+  (((1 : Nat) : K) - tl.sum) :: tl
+
+/-- barycentric coordinates of `p` in the simplex `verts` (`d + 1` points with `d` coordinates each); `none` for a
+malformed or degenerate simplex.  The answer is verified before it is returned. -/
+def baryN [DecidableEq K] (verts : List (List K)) (p : List K) : Option (List K) :=
+  match verts with
+  | [] => none
+  | v0 :: rest =>
+    if rest.length ≠ p.length || !(verts.all fun v => v.length == p.length) then none else
+    let E := edges verts
+    if detN E.length E = 0 then none else
+    let lam := cramer E (vsub p v0)
+    if lam.sum = ((1 : Nat) : K) ∧ wsum p.length lam verts = p then some lam else none
+
+/-- `LinearNDInterpolator` at `p`, given the simplex that contains it and the samples at its vertices -/
+def linearSimplex [DecidableEq K] (verts : List (List K)) (vals : List K) (p : List K) : Option K :=
+  (baryN verts p).map fun lam => combine lam vals
+
+/-- the point is in the closed simplex -/
+def inSimplex (lam : List K) : Bool := lam.all fun l => decide (0 ≤ l)
+
+/-- where a point with barycentric coordinates `lam` in the simplex with vertex numbers `ids` lies with respect to
+the convex hull whose facets are `facets` (each a list of vertex numbers, `Delaunay.convex_hull`):
+`outside` of the simplex (some `λ_i < 0`); on the `boundary` of the hull — all `λ ≥ 0` and every vertex that carries
+weight (`λ_i ≠ 0`) belongs to one common hull facet, i.e. the point lies in that facet (hull vertices and points on hull
+edges of a 3-D cloud included): exactly the points where SciPy's point location may answer -1; or `inside`. -/
+def hullLoc [DecidableEq K] (lam : List K) (ids : List Nat) (facets : List (List Nat)) : Loc :=
+  if !inSimplex lam then Loc.outside
+  else if facets.any (fun G => (List.zip lam ids).all fun li => decide (li.1 = 0) || G.contains li.2) then Loc.boundary
+  else Loc.inside
 
 /-- barycentric coordinates of `p` in the triangle `a b c` (Cramer's rule); `none` when the
 triangle is degenerate -/
